@@ -76,3 +76,20 @@ impl Bytes {
         ensures final(self)@ == old(self)@.subrange(0, at as int), r@ == old(self)@.subrange(at as int, old(self)@.len() as int)
     { unimplemented!() }
 }
+
+impl File {
+    // File::write_all_at (pwrite at an absolute offset inside the already reserved range)
+    #[verifier::external_body]
+    pub fn write_all_at(&mut self, offset: u64, buf: Bytes) -> (r: Result<(), VErr>)
+        requires old(self).wf(), offset + buf@.len() <= old(self).size_spec()
+        ensures
+            final(self).wf(), final(self).size_spec() == old(self).size_spec(), final(self).synced() == old(self).synced(),
+            r.is_ok() ==> final(self).trace() == old(self).trace().push(IoEvent::WriteAt(offset as int, buf@)),
+            r.is_err() ==> final(self).trace() == old(self).trace(),
+    { unimplemented!() }
+}
+// IoDriver::create: a new empty file
+#[verifier::external_body]
+pub fn iodriver_create() -> (r: Result<File, VErr>)
+    ensures r.is_ok() ==> r->Ok_0.wf() && r->Ok_0.size_spec() == 0 && r->Ok_0.synced() == 0 && r->Ok_0.trace() == Seq::<IoEvent>::empty()
+{ unimplemented!() }
